@@ -180,15 +180,18 @@ static int map_op(struct parsec_execution_stream_s *es, const void *src, void *d
     return 0;
 }
 
-static volatile int wd_armed, wd_secs = 20;
+static volatile int wd_armed, wd_secs = 45, wd_hang;
 static parsec_taskpool_t *wd_tp; static char wd_desc[128];
 static void *watchdog(void *arg)
 {
     (void)arg;
     for(int i = 0; i < wd_secs * 10 && wd_armed; i++) usleep(100000);
     if( wd_armed ) {
-        fprintf(out, "%s => stuck nb_tasks=%d pending=%d invocations=%d\n", wd_desc, (int)wd_tp->nb_tasks, (int)wd_tp->nb_pending_actions, m_nev);
-        fprintf(out, "#end\n"); fflush(out);
+        if( wd_hang ) fprintf(out, "maphang %s => stuck nb_tasks=%d pending=%d invocations=%d\n", wd_desc, (int)wd_tp->nb_tasks, (int)wd_tp->nb_pending_actions, m_nev);
+        else fprintf(out, "!viol map %s: the taskpool did not complete within %d s: nb_tasks=%d pending=%d after %d operator invocations on rank %d\n",
+                     wd_desc, wd_secs, (int)wd_tp->nb_tasks, (int)wd_tp->nb_pending_actions, m_nev, myrank);
+        if( wd_hang ) fprintf(out, "#end\n");
+        fflush(out);
         _exit(42);
     }
     return NULL;
@@ -205,11 +208,12 @@ static void do_map(int mt, int nt, int P, int Q, int hang)
     map_tp_mirror_t *mir = (map_tp_mirror_t*)tp;
     int mirror_ok = (mir->src == (parsec_tiled_matrix_t*)&A && mir->dest == (parsec_tiled_matrix_t*)&B && mir->op == map_op && mir->next_n == 0);
     pthread_t wd;
-    if( hang ) { snprintf(wd_desc, sizeof wd_desc, "maphang %d %d %d %d", mt, nt, P, Q); wd_tp = tp; wd_armed = 1; pthread_create(&wd, NULL, watchdog, NULL); }
+    snprintf(wd_desc, sizeof wd_desc, "%d %d %d %d", mt, nt, P, Q); wd_tp = tp; wd_hang = hang; wd_armed = 1; pthread_create(&wd, NULL, watchdog, NULL);
     int rc = parsec_context_add_taskpool(parsec, tp);
     if( rc == PARSEC_SUCCESS ) rc = parsec_context_start(parsec);
     if( rc == PARSEC_SUCCESS ) rc = parsec_context_wait(parsec);
-    if( hang ) { wd_armed = 0; pthread_join(wd, NULL); fprintf(out, "%s => completed\n", wd_desc); }
+    wd_armed = 0; pthread_join(wd, NULL);
+    if( hang ) fprintf(out, "maphang %s => completed\n", wd_desc);
     int next = mirror_ok ? (int)mir->next_n : -1;
     fprintf(out, "map %d %d %d ", mt, nt, cores);
     int nloc = 0;
